@@ -96,3 +96,21 @@ Print Assumptions C07_forward_scan_is_code.
 Theorem C07_reverse_scan_is_code : forall d p k, rev_scan_code d p k = rev_scan d p k false.
 Proof. exact rev_scan_tie. Qed.
 Print Assumptions C07_reverse_scan_is_code.
+
+(* tie to the source, stage 3d: Calculator::reset (resets.cpp, with resetAccessFootpaths / resetEgressFootpaths inlined) is
+   read AS IT IS NOW by tools/gen_loops.py (gen/Reset.v) and executed by the interpreter of Reset.v: which lookup feeds
+   which table and with which limit, the seeding of the per-stop tables row by row, the running minimum / maximum, the
+   emptiness flags and the order of the NO_ACCESS_* exceptions *)
+Require Import TrV.Reset.
+From TrV Require Import Proofs.ResetTie.
+Theorem C07_reset_reasons_are_code : forall e m0 acc egr r,
+  ze_odtrip e = false -> rows_are e m0 acc egr -> absent_clean e m0 ->
+  (run_reset GZ.gen_reset_skel e m0 = NoRouting r <-> access_reason (reset_acc_ok e acc) (reset_egr_ok e egr) = Some r).
+Proof. exact reset_reasons_tie. Qed.
+Print Assumptions C07_reset_reasons_are_code.
+Theorem C07_reset_reasons_of_route_requests_are_code : forall e m0 acc egr r,
+  ze_odtrip e = false -> ze_origin e = true -> ze_dest e = true -> rows_are e m0 acc egr -> absent_clean e m0 ->
+  (run_reset GZ.gen_reset_skel e m0 = NoRouting r <->
+   access_reason (negb (ze_fresh e) || nonempty acc) (negb (ze_fresh e) || nonempty egr) = Some r).
+Proof. exact reset_reasons_single. Qed.
+Print Assumptions C07_reset_reasons_of_route_requests_are_code.
